@@ -162,6 +162,17 @@ ADD6 = {
  "C12": ("two-digit-year window on ToInteger; revive of invalid dates by setFullYear; int64-nanosecond census", "The 0..99 window is tested on an integral value; setFullYear restarts from +0; no UnixNano on script-chosen times."),
  "C14": ("abstract evaluation of the error constructor helper; Date.prototype payload", "Error instances get no own name; Date.prototype is the invalid date."),
 }
+ADD7 = {
+ "C01": ("path census of repeated conversions of one script value; throw-before-arguments order in call / new", "No operand or argument is converted twice on one feasible path; a call or new expression decides no TypeError before its arguments are evaluated."),
+ "C02": ("dominance of hasBinding over every createBinding", "The environment-record primitive that asserts a fresh name is only called on the not-bound side of hasBinding for the same record and name (or as the single binding of a record just created)."),
+ "C05": ("path census of repeated conversions of one script value", "No operand is converted to a primitive, number or string twice on one feasible path (boolean phi flags are followed)."),
+ "C09": ("path census of repeated conversions of one script value", "No argument of a String built-in is converted twice, also across two loops over the argument list."),
+ "C11": ("order of the replacer call and the unboxing of wrapper objects", "The stringify walker unboxes Number / String / Boolean objects only after the replacer function has been called (Str steps 3-4)."),
+}
+for _pid, (_t, _d) in ADD7.items():
+    t0, d0, n0 = P[_pid]
+    P[_pid] = (t0 + "; " + _t, d0 + " Also: " + _d, n0)
+
 for _pid, (_t, _d) in ADD6.items():
     t0, d0, n0 = P[_pid]
     P[_pid] = (t0 + "; " + _t, d0 + " Also: " + _d, n0)
